@@ -197,9 +197,10 @@ func (e *evidence) write(path string) error {
 			"stubbed": []string{},
 			"harness": []string{"caller tasks", "user RenderFN callbacks (fault seam)", "seeded scheduler + inserted yields", "sync shim (only if the library imports sync)"},
 		},
-		"instrumented_files": e.p.Instr.Files,
-		"toolchain":          e.p.Go,
-		"build_s":            e.p.BuildS,
+		"instrumented_files":               e.p.Instr.Files,
+		"library_imports_of_outside_state": e.p.Instr.Notes,
+		"toolchain":                        e.p.Go,
+		"build_s":                          e.p.BuildS,
 		"oracles": []string{"O1 sequential equivalence", "O2 arguments never modified (boundaries, end of run, per-step cadence, solo)", "O3 no data race (race build, invisible baton)",
 			"O4 results repeat across fresh processes", "O5 results repeat within a process / after the simulated run", "L1 no deadlock", "L2 bounded completion"},
 	}
